@@ -4,8 +4,10 @@
 //	go run . -repo <repo root> -out <dir>
 //
 // One output file per entry of `units` (units.go).  A file is rewritten only if its content
-// changed.  Anything outside the supported subset, or a listed function that no longer
-// exists, is reported as  file:line: unsupported <construct>  and the exit status is 1.
+// changed.  Failures are per unit: anything outside the supported subset, or a listed function
+// that no longer exists, is reported on stdout as  GOTRANS-FAIL <Name> file:line: unsupported <construct>,
+// that unit's previous file is left untouched, the other units are still written, and the exit
+// status is 3 (1 = the translator itself could not run: bad flags, unwritable output).
 //
 // Shape of the translation (all of it is in trans.go):
 //   - statements are translated in continuation-passing style into nested let / if / match;
@@ -41,13 +43,17 @@ func main() {
 	flag.Parse()
 	if *out == "" {
 		fmt.Fprintln(os.Stderr, "gotrans: -out is required")
-		os.Exit(2)
+		os.Exit(1)
+	}
+	if st, err := os.Stat(*repo); err != nil || !st.IsDir() {
+		fmt.Fprintln(os.Stderr, "gotrans: -repo is not a directory:", *repo)
+		os.Exit(1)
 	}
 	bad := 0
 	for _, u := range units {
 		text, err := translateUnit(*repo, u)
-		if err != nil {
-			fmt.Fprintf(os.Stderr, "gotrans: %s (Gen/%s.v not regenerated)\n", err, u.name)
+		if err != nil { // this unit only: its previous Gen file stays, the other units are still written
+			fmt.Printf("GOTRANS-FAIL %s %s\n", u.name, strings.ReplaceAll(err.Error(), "\n", " "))
 			bad++
 			continue
 		}
@@ -57,11 +63,11 @@ func main() {
 		}
 		if e := os.WriteFile(p, []byte(text), 0o644); e != nil {
 			fmt.Fprintln(os.Stderr, "gotrans:", e)
-			bad++
+			os.Exit(1)
 		}
 	}
 	if bad > 0 {
-		os.Exit(1)
+		os.Exit(3) // some units failed (one GOTRANS-FAIL line each); status 1 = the translator itself could not run
 	}
 }
 
